@@ -35,7 +35,7 @@ ASSUMPTIONS = [
     "unit tables restored (mc/isolation.py) after every case that raised or used the custom unit",
 ]
 
-NWIN = 12
+NWIN = 26
 OTHER = {"m": ("cm", "km"), "cm": ("m", "[cu]"), "J": ("erg", "eV"), "[cu]": ("m", "km")}
 WRONG = {"m": "s", "cm": "J", "J": "m", "[cu]": "s"}
 
@@ -238,6 +238,11 @@ def build(fam, seq, placement="root", bad=None, bad_at=None, constant=False, und
         body = head + mods + [z]
         return [body]
     if placement == "chain":
+        if first == "decl":
+            # the first parse() must itself leave no declared node without value: it gets the first modification
+            if len(mods) < 2:
+                return None
+            return [head + mods[:1], mods[1:]]
         return [head, mods] if mods else [head]
     return [head + tail + mods]
 
@@ -298,6 +303,8 @@ def make_case(desc):
 
 def run_case(desc, sh=None, seen=None):
     progs, tags = make_case(desc)
+    if progs is None:
+        return None
     whole = [ln for p in progs for ln in p]
     try:
         exp = G.interpret(whole)
@@ -376,11 +383,13 @@ def _classify_value(desc, exp, obs):
 
 
 # ------------------------------------------------------------------------------------------------ enumeration
-def _cases(tier, seed):
-    """every case descriptor of the tier (generator).  Yields (family index, desc)."""
+def _cases(tier, seed, only=None):
+    """every case descriptor of the tier (generator); only = family index to restrict to.  Yields (family, desc)."""
     fams = families()
     win = seed % NWIN
     for fi, fam in enumerate(fams):
+        if only is not None and fi != only:
+            continue
         F = list(fam)
         full = steps(fam)
         core = steps(fam, core=True)
@@ -411,14 +420,14 @@ def _cases(tier, seed):
                 for pl in pls:
                     yield fi, dict(sub="negative", fam=F, seq=[list(s) for s in seq], placement=pl, bad=bi, bad_at=at)
         if fam[3] == "def":
-            for s in (full if tier == "thorough" else core + [full[0]]):
+            for s in (full if tier == "thorough" else list(dict.fromkeys(core + [full[-2]]))):
                 pls = ["root", PLACEMENTS[1 + fi % 4]] if tier == "quick" else list(PLACEMENTS)
                 for pl in pls:
                     yield fi, dict(sub="negative", fam=F, seq=[list(s)], placement=pl, constant=True)
                 yield fi, dict(sub="negative", fam=F, seq=[list(core[1 % len(core)]), list(s)], placement="root",
                                constant=True)
         else:
-            for pl in PLACEMENTS[:4]:
+            for pl in ("root", "group", "regroup"):
                 yield fi, dict(sub="negative", fam=F, seq=[], placement=pl)          # declared, never assigned
         for pl in ("root", "dotted", "chain"):
             for seq, at in ctx[:3]:
@@ -426,11 +435,20 @@ def _cases(tier, seed):
                                bad_at=at)
 
 
-NSHARD = 96
+def _family_size(tier, seed, fi):
+    fam = families()[fi]
+    a, c = len(steps(fam)), len(steps(fam, core=True))
+    full3 = tier == "thorough" or (fi % NWIN == seed % NWIN)
+    return a + a * a + (a ** 3 if full3 else c ** 3) + 4 * (c + c * c) + 400
 
 
 def plan(tier, seed):
-    return [(tier, seed, k, NSHARD) for k in range(NSHARD)]
+    shards = []
+    for fi in range(len(families())):
+        parts = max(1, round(_family_size(tier, seed, fi) / 2500))
+        shards += [(tier, seed, fi, k, parts) for k in range(parts)]
+    shards.sort(key=lambda d: -_family_size(d[0], d[1], d[2]) / d[4])
+    return shards
 
 
 def init_worker():
@@ -439,11 +457,11 @@ def init_worker():
 
 
 def run_shard(desc):
-    tier, seed, k, n = desc
+    tier, seed, fi, k, n = desc
     sh = Shard(PROPERTY)
     seen = set()
     idx = 0
-    for fi, d in _cases(tier, seed):
+    for _, d in _cases(tier, seed, only=fi):
         idx += 1
         if idx % n != k:
             continue
